@@ -9,6 +9,7 @@ import (
 	"go/parser"
 	"go/token"
 	"go/types"
+	"strconv"
 	"strings"
 )
 
@@ -546,6 +547,23 @@ func (env *SpecEnv) call(x *SCall) Val {
 				}
 				v := env.eval(x.Args[0])
 				return Val{T: ex.w.zero(v.S), S: v.S, Go: v.Go}
+			case "iter":
+				// iter(K, e): e in the state at the start of the current iteration of loop K
+				lit, ok := x.Args[0].(*SInt)
+				if !ok || len(x.Args) != 2 {
+					env.fail("iter(K, e) needs a literal loop ordinal")
+				}
+				var snap *State
+				ord, _ := strconv.Atoi(lit.V)
+				if env.frame != nil {
+					snap = env.frame.iterSnap[ord]
+				}
+				if snap == nil {
+					env.fail("iter(%d, ...): not inside loop %d", ord, ord)
+				}
+				n := env.with(snap)
+				n.frame = snap.frame
+				return n.eval(x.Args[1])
 			case "zeroof":
 				a, ok := x.Args[0].(*SStr)
 				if !ok {
